@@ -155,7 +155,7 @@ def make_world(scen, oracles=(), fault_plan=None):
     scen["scratch"] = base + "/scratch"
     cfg = base + "/in/config.json"
     with open(cfg, "w") as f:
-        f.write(config_text(scen))
+        f.write(scen["config_text"] if scen.get("config_text") is not None else config_text(scen))
     w = World(root, scen, level=scen.get("level", 0), lockmode=scen.get("lockmode", "never_break"),
               oracles=[o() if isinstance(o, type) else o for o in oracles], fault_plan=fault_plan)
     w.cfg_path = cfg
